@@ -9,7 +9,7 @@ LEVEL = "proof"
 DESIGN_REF = "DESIGN.md §9 C18, §12.C18"
 COQ_TARGETS = ["Properties/C18", "Pins/C18"]
 THEOREMS = [("PdfV.Properties.C18", n) for n in
-            ["C18_missing_recognised", "C18_option_null", "C18_optional_null", "C18_deferred", "C18_required_err",
+            ["C18_missing_recognised", "C18_existing_object_not_missing", "C18_option_null", "C18_optional_null", "C18_deferred", "C18_required_err",
              "C18_element_skipped", "C18_element_null", "C18_enums_resolve"]]
 ANCHORS = ["object/mod.rs", "file.rs", "pdf_derive"]
 MODES = ["dangling"]
@@ -230,11 +230,113 @@ def cases_for(rng, sidx, tier):
             yield Case("dangling", head + [data], mfields=head + [b"%d" % size] + mentries, check=chk, model=model, tags=tags)
 
 
+def check_nested_required(fname):
+    """two levels: the holder's reference designates an object that EXISTS; that object's required entry dangles.  The property's second
+    sentence: an error naming the entry - the existing object must not be taken for a missing one (no None, no dropped element)"""
+    def chk(r):
+        if r == ("ERR", "UnknownType"):
+            return None
+        if r[0] != "OK":
+            return "%s %s" % (r[0], r[1])
+        f = r[1]
+        if b"|" not in f:
+            return "malformed result"
+        k = f.index(b"|")
+        a, b = f[:k], f[k + 1:]
+        if not b or b[0] != b"ok":
+            return None
+        if a[0] == b"ok":
+            return ("an existing object whose required entry %s refers to a missing object was read as if the object itself were missing "
+                    "(entry absent / element dropped): no error reported" % fname)
+        txt = a[0].decode("latin-1")
+        if ("FP(%s)>" % fname) not in txt and ("Missing(%s)" % fname) not in txt:
+            return "error does not name the entry %s: %s" % (fname, txt)
+        return None
+    return chk
+
+
+def nested_cases(rng, tier):
+    """holder (optional entry in strict mode, array element in both modes) -> existing object of a derived struct -> required entry
+    that refers to a free / undefined / beyond-/Size object (the class of seeded/C18f)"""
+    St = S().structs
+    out = []
+    for sidx, s in enumerate(St):
+        if not s["read"] or s["name"] in ("RawFunction", "Function2"):
+            continue
+        for f in [f for f in s["fields"] if not f["flags"] & 5]:
+            G = gen(rng)
+            opt = f["ty"][0] == 20
+            inner = f["ty"][1:] if opt else f["ty"]
+            vec = inner[0] == 21
+            ety = inner[1:] if vec else inner
+            if not (opt or vec) or holder_class(G, ety) != "resolving" or ety[0] not in (25, 26):
+                continue                       # the holder must follow a reference (MaybeRef / RcRef) to reach the inner object
+            ct = content_type(ety)
+            if not ct or ct[0] != 30:
+                continue
+            bidx = ct[1]
+            B = St[bidx]
+            if not B["read"] or B["attrs"].get("is_stream"):
+                continue
+            reqs = [g for g in B["fields"] if not g["flags"] & 5 and g["ty"][0] not in (20, 21, 22) and g["default"][0] == 0
+                    and holder_class(G, g["ty"]) == "resolving" and G.modelled(g["ty"])]
+            if not reqs:
+                continue
+            out.append((sidx, f, opt, vec, bidx, reqs))
+    if tier == "quick" and len(out) > 24:
+        out = rng.sample(out, 24)
+    for sidx, f, opt, vec, bidx, reqs in out:
+        s = S().structs[sidx]
+        for kind in (KINDS[:4] if tier != "quick" else [rng.choice(KINDS[:4])]):
+            for o in ("s", "t"):
+                if o == "t" and not vec:
+                    continue                   # tolerant options swallow every error of an optional entry
+                G = gen(rng)
+                g = rng.choice(reqs)
+                d = G.struct(sidx, force={f["name"]: False}, extras=False)
+                bd = G.struct(bidx, depth=1, extras=False)
+                n = len(G.objs) + 1            # number of the inner object once appended
+                num = {"free": n + 1, "gap": n + 2, "at-size": n + 4, "beyond": n + 7}[kind]
+                bd[g["key"]] = Ref(num, 0)
+                G.objs.append(bd)
+                data, mentries, size, ref = build_file(G.objs, kind, {"a": 1})
+                if (ref.num, ref.gen) != (num, 0):
+                    continue
+                planted = [Ref(n, 0)] if vec else Ref(n, 0)
+                keyf = f["key"].encode() + (b"=" + canon([]) if vec else b"")
+                head = [o.encode(), s["name"].encode(), canon(d), keyf, canon(planted)]
+                tags = ["struct:" + s["name"], "kind:" + kind, "holder:nested-" + ("element" if vec else "field"), "opts:" + o, "class:resolving", "nested-required"]
+                yield Case("dangling", head + [data], mfields=head + [b"%d" % size] + mentries, check=check_nested_required(g["name"]), model=False, tags=tags)
+
+
+def nested_page_cases(rng, tier):
+    """the same two-level shape through a hand-written reader: an annotation's optional /P designates a page object that exists and whose
+    required /Parent refers to nothing (strict options: tolerant ones swallow every error of an optional entry)"""
+    St = S().structs
+    aidx = [i for i, s in enumerate(St) if s["name"] == "Annot"]
+    if not aidx:
+        return
+    for kind in KINDS[:4]:
+        G = gen(rng)
+        d = G.struct(aidx[0], force={"page": False}, extras=False)
+        n = len(G.objs) + 1
+        num = {"free": n + 1, "gap": n + 2, "at-size": n + 4, "beyond": n + 7}[kind]
+        G.objs.append({"Type": Name("Page"), "Parent": Ref(num, 0)})
+        data, mentries, size, ref = build_file(G.objs, kind, {"a": 1})
+        if (ref.num, ref.gen) != (num, 0):
+            continue
+        head = [b"s", b"Annot", canon(d), b"P", canon(Ref(n, 0))]
+        tags = ["struct:Annot", "kind:" + kind, "holder:nested-field", "opts:s", "class:resolving", "nested-required", "hand:PageRc"]
+        yield Case("dangling", head + [data], mfields=head + [b"%d" % size] + mentries, check=check_nested_required("parent"), model=False, tags=tags)
+
+
 def generate(rng, tier):
     for i, s in enumerate(S().structs):
         if not s["read"] or s["name"] in ("RawFunction", "Function2"):
             continue
         yield from cases_for(rng, i, tier)
+    yield from nested_cases(rng, tier)
+    yield from nested_page_cases(rng, tier)
 
 
 def nontrivial(c):
